@@ -66,6 +66,24 @@ Fixpoint elems {A} (toks : list (tok A)) : list A :=
   | _ :: r => elems r
   end.
 
+(** the written text seen as nested structure: a tensor of shape d :: ds' is its d sub-tensors of
+    shape ds', separated by a space (ds' = [], i.e. inside a row) or by one newline per dimension of ds' *)
+Definition block_sep {A} (ds' : list N) : list (tok A) :=
+  match ds' with [] => [Sp] | _ => repeat Nl (length ds') end.
+Fixpoint join {T} (sep : list T) (parts : list (list T)) : list T :=
+  match parts with
+  | [] => []
+  | p :: rest => p ++ match rest with [] => [] | _ => sep ++ join sep rest end
+  end.
+(** [l] cut into [c] consecutive blocks of [n] elements *)
+Fixpoint blocks {A} (c n : nat) (l : list A) : list (list A) :=
+  match c with O => [] | S c' => firstn n l :: blocks c' n (skipn n l) end.
+Fixpoint nested {A} (ds : list N) (l : list A) : list (tok A) :=
+  match ds with
+  | [] => map E l
+  | d :: ds' => join (block_sep ds') (map (nested ds') (blocks (N.to_nat d) (N.to_nat (product ds')) l))
+  end.
+
 (** Debug text: after the [m]-th element close the completed dimensions, comma, reopen them *)
 Definition dsep_spec {A} (ds : list N) (m : N) : list (dtok A) :=
   repeat DClose (wraps ds m) ++ [DComma] ++ repeat DOpen (wraps ds m).
